@@ -693,13 +693,16 @@ SHAPE_OBLIGATIONS = {
 
 # Entity.__delitem__ (Gen/IndexDel_gen.v, theorem c07_delitem_as_written) and VMF.add_ent / VMF.remove_ent
 # (Gen/IndexListOps_gen.v, theorems c07_add_ent_as_written / c07_remove_ent_as_written)
-DEL_IMPORTS = ['SV.SM.IndexModel', 'SV.SM.IndexShapes', 'SV.SM.IndexMaint', 'SV.SM.IndexDel', 'SV.Gen.IndexDel_gen']
+DEL_IMPORTS = ['SV.SM.IndexModel', 'SV.SM.IndexShapes', 'SV.SM.IndexMaint', 'SV.SM.IndexDel', 'SV.SM.IndexClear', 'SV.Gen.IndexDel_gen']
 DEL_OBLIGATIONS = {
     'delitem_targetname_branch_rekeys_by_target_under_the_membership_test': 'del_targetname_ok gen_delitem_maint',
     'delitem_refuses_the_classname': 'del_classname_refused gen_delitem_maint',
     'delitem_other_keys_leave_the_indexes_alone': 'del_other_ok gen_delitem_maint',
     'delitem_lookup_is_case_insensitive': 'del_loop_case_insensitive gen_delitem_loop',
     'delitem_pops_the_stored_spelling': 'del_loop_pops_stored gen_delitem_loop',
+    # Entity.clear (theorem c07_clear_as_written)
+    'clear_reindexes_through_setitem_and_delitem_before_emptying_the_keys': 'clear_reindexes_before_emptying gen_clear',
+    'clear_empties_the_keys_once_and_stores_the_classname_back': 'clear_keeps_the_classname gen_clear',
 }
 LISTOPS_IMPORTS = ['SV.SM.IndexModel', 'SV.SM.IndexListOps', 'SV.Gen.IndexListOps_gen']
 LISTOPS_OBLIGATIONS = {
@@ -839,6 +842,7 @@ def run(ck: Ck) -> None:
     if keys:
         ck.explain('correspondence:')
         ck.explain('instance:')
+        ck.explain('translate:')
 
 
 def _tuplify(x):
